@@ -1048,3 +1048,30 @@ Q(name="e2_set_close_timer", props=["C08"], func=r"connection/mod\.rs:245:1[^>]*
   functions=["Connection::set_close_timer"], pre=lambda c: "true", post=sct_post,
   bounds="every connection state: the Close timer (and only it) is set to now + 3 * pto(highest space); arithmetic uninterpreted",
   replay=("conn_idle_close_timers_native", lambda m: [dict(state=s, has_idle=1) for s in (0, 1)]))
+
+
+# ------------------------------------------------------------------ C09 / C08: Endpoint::accept never leaves a route to a connection attempt that no longer exists
+def acc_post(c, p):
+    st = p.p.state
+    dst = "_2.%d.%d.%d" % (c.field("endpoint.rs", "Incoming", "packet"), c.field("packet.rs", "InitialPacket", "header"), c.field("packet.rs", "InitialHeader", "dst_cid"))
+    rem = p.called(r"ConnectionIndex::remove_initial$")
+    ins = p.called(r"ConnectionIndex::insert_initial$")
+    add = p.called(r"Endpoint::add_connection$")
+    slab = p.called(r"Slab.*::(try_)?remove$")
+    is_err = eq(c.ex.read_key(st, "_0#discr", I64).t, bv(1))
+    if not slab:
+        return "false"            # the buffered datagrams of the attempt are always released
+    if not add:
+        # refused before a connection exists: the Initial route of exactly this attempt is removed, an error is returned
+        ok = len(rem) == 1 and not ins and rem[0][1][1] == ("agg", dst) and rem[0][1][0][0] == "ref"
+        return and_(is_err, "true" if ok else "false")
+    # a connection was created: it takes over the route for the same destination CID
+    ok = len(ins) == 1 and not rem and ins[0][1][1] == ("agg", dst) and ins[0][1][2] == add[0][1][1]
+    return "true" if ok else "false"
+
+
+Q(name="e2_endpoint_accept_routing", props=["C09", "C08"], func=r"endpoint\.rs:61:1[^>]*>::accept$",
+  pure=[r"cids_exhausted$"], ignore_untranslatable=r"^loop at", allowed_panics=r"abort|expect_failed|attempt to compute",
+  functions=["Endpoint::accept"], pre=lambda c: "true", post=acc_post,
+  bounds="every path of accept up to the replay of buffered datagrams (paths entering that loop are outside; they are past the routing decisions): whenever the attempt is abandoned before a connection exists (stale, CIDs exhausted, Initial fails authentication) the Initial route for its destination CID is removed; whenever a connection is created the route is re-pointed to its handle; crypto, slab, hash maps opaque",
+  replay=("endpoint_accept_auth_failure_native", lambda m: [dict(x=0)]))
